@@ -103,6 +103,45 @@ def fit(lvl, variant, sig, kv):
     return vc.sig_tokens(variant, d)
 
 
+def valid_hint_constructions(ctx, drivers, honest, rng, quick):
+    """secret-free constructions whose kernel points all have full order: an invertible response matrix, E_aux := pk
+    curve with the pk hints, and the *correct* public hints of E_chall (computed with the library's own
+    ec_curve_to_basis_2f_to_hint through the driver op `hints`). The kernel is then a basis on both factors but not
+    isotropic; the challenge is re-fitted twice. Returns Runner-style results."""
+    out = []
+    for (lvl, variant), hs in sorted(honest.items()):
+        if variant != "dim2":
+            continue
+        c = vc.CONST[lvl]
+        pk = hs[0]["pk"]; pd = vc.pk_dict(pk)
+        k = c["resp"] + 2
+        mats = [(3, 1, 1, 2), (1, 2, 2, 5), (2 ** k - 3, 2, 4, 7)]
+        for mat in (mats[:1] if quick and lvl != 1 else mats):
+            chall = rng.bits(64 * c["nw"] - 8)
+            d = dict(Are=pd["Are"], Aim=pd["Aim"], Cre=1, Cim=0, bt=0, trl=0, m00=mat[0], m01=mat[1], m10=mat[2], m11=mat[3],
+                     chall=chall, chall_b=0, ha0=pd["h0"], ha1=pd["h1"], hc0=0, hc1=0)
+            msg = "69736f74726f7079"
+            for attempt in range(3):
+                st, o, err = vc.run_lines(drivers[(lvl, variant)], [vc.verify_line(variant, pk, vc.sig_tokens(variant, d), msg)], 120)
+                if st != "ok":
+                    break
+                a = vc.parse_kv(o[0]).get("Achall", "-")
+                if a == "-":
+                    break
+                st, o, err = vc.run_lines(drivers[(lvl, variant)], ["hints %s %s %d" % (a.split(",")[0], a.split(",")[1], k)], 120)
+                if st != "ok":
+                    break
+                d["hc0"], d["hc1"] = int(o[0].split()[1]), int(o[0].split()[2])
+                sig = vc.sig_tokens(variant, d)
+                st, o, err = vc.run_lines(drivers[(lvl, variant)], [vc.verify_line(variant, pk, sig, msg)], 120)
+                kv = vc.parse_kv(o[0]) if o else {"stderr": err[-600:]}
+                out.append(((lvl, variant, "invertible %s|pk|valid hints|fit#%d" % (str(mat[:2]), attempt), "forgery", pk, sig, msg), (st, kv)))
+                if st != "ok" or kv.get("H", "-") == "-":
+                    break
+                d["chall"] = int(kv["H"], 16)
+    return out
+
+
 class Runner:
     def __init__(self, ctx, drivers):
         self.ctx, self.drivers = ctx, drivers
@@ -329,9 +368,12 @@ def run(ctx):
     d1, e1 = evaluate(ctx, first, hist)
     second = R2.run()
     d2, e2 = evaluate(ctx, second, hist)
-    n_dis += d1 + d2
-    examples += e1 + e2
-    total = len(results) + len(first) + len(second)
+    third = valid_hint_constructions(ctx, drivers, honest, ctx.rng.fork("c02-iso"), quick)
+    d3, e3 = evaluate(ctx, third, hist)
+    n_dis += d1 + d2 + d3
+    examples += e1 + e2 + e3
+    ctx.coverage["valid_hint_constructions"] = {"runs": len(third), "stages": sorted({vc.c_stage(kv) for _, (st, kv) in third if st == "ok"})}
+    total = len(results) + len(first) + len(second) + len(third)
     ctx.obligation("correspondence protocols_verif verdict+stage vs decision model (%d runs)" % total, n_dis == 0, json.dumps(examples[:4])[:700])
     if n_dis and not ctx.violations:
         ctx.violation("C02:correspondence:%s" % json.dumps(examples[0])[:140], "decision model disagrees with the implementation (verdict or stage of return)",
@@ -341,7 +383,7 @@ def run(ctx):
     ctx.coverage["honest_signatures"] = {"%s:lvl%d" % (v, l): len(hs) for (l, v), hs in honest.items()}
     ctx.coverage["constructions_rejected_before_hash"] = n_nofit
     ctx.coverage["constructions_fitted"] = len(second)
-    ctx.coverage["accepted"] = sum(1 for _, (st, kv) in results + first + second if st == "ok" and kv.get("v") == "1")
+    ctx.coverage["accepted"] = sum(1 for _, (st, kv) in results + first + second + third if st == "ok" and kv.get("v") == "1")
     for it, (st, kv) in (results[:2] + second[:2]):
         ctx.sample(dict(level=it[0], variant=it[1], probe=it[2], cls=it[3], verdict=kv.get("v"), stage=vc.c_stage(kv) if st == "ok" else st))
     return dict(level="proof", rule="one case = one (variant, level, probe class, probe, verdict, stage) of the real verifier compared with the decision model")
